@@ -216,7 +216,7 @@ fn damage_sure(src: &mut Src, case: &Case) -> Option<(String, &'static str, Scop
             // second form (drawn last): the prefix IS declared, but on an empty-element sibling written just
             // before — its scope has ended (also at the top level of a fragment)
             if src.ratio(1, 3) {
-                let what = if src.bool() { "<zz4 xmlns:zz3=\"u\"/><zz3:e/>" } else { "<zz4 xmlns:zz3=\"u\"></zz4><zz4 zz3:k=\"v\"/>" };
+                let what = if src.bool() { "<zz4 xmlns:zz3=\"u\"/><zz3:e/>" } else { "<zz4 xmlns:zz3=\"u\" zz3:j=\"1\"></zz4><zz4 zz3:k=\"v\"/>" };
                 return Some((ins(s.end, what), "prefix_declared_on_a_preceding_sibling_only", Scope::Both));
             }
             Some((ins(s.end, "<zz6:e/>"), "undeclared_element_prefix", Scope::Both))
@@ -285,6 +285,11 @@ fn damage_sure(src: &mut Src, case: &Case) -> Option<(String, &'static str, Scop
             let what = ["&#0;", "&#1;", "&#8;", "&#xB;", "&#xC;", "&#xE;", "&#x1F;", "&#xD800;", "&#xDFFF;", "&#xFFFE;", "&#xFFFF;", "&#x110000;", "&#+65;", "&#x+41;"][src.choice(14)];
             // after the root of a document character data is not allowed anyway; put it inside: before the end tag
             let at = if s.end - s.start > 2 { s.start } else { return None };
+            // second form (drawn last): numbers beyond u32 / u64 that wrap around to a legal character
+            if src.ratio(1, 4) {
+                let what = ["&#4294967361;", "&#x100000041;", "&#18446744073709551681;", "&#x10000000000000041;", "&#4294967296;"][src.choice(5)];
+                return Some((ins(at, what), "reference_number_that_wraps_around", Scope::Both));
+            }
             Some((ins(at, what), "reference_to_non_char", Scope::Both))
         }
         17 => {
